@@ -37,6 +37,11 @@ def gen_history(rng, spec, n, ops=('ev',), weights=None, queries=False):
 def gen_chart_scenario(rng, combos=None, nops=(5, 41), spec_kw=None, ops=('ev',), weights=None,
                        start_any=True, flags=True):
   spec_kw = dict(spec_kw or {})
+  if common.deep(rng):
+    # thorough tier: larger charts and longer histories than the quick tier ever draws
+    spec_kw['nstates'] = min(30, 2 * spec_kw.get('nstates', rng.randrange(2, 15)) + rng.randrange(0, 5))
+    spec_kw.setdefault('max_depth', 12)
+    nops = (nops[0], nops[0] + 3 * max(1, nops[1] - nops[0]))
   spec = chartgen.gen_spec(rng, **spec_kw)
   host, build = rng.choice(combos or COMBOS)
   sp = chartgen.Spec(spec)
